@@ -488,7 +488,7 @@ func requiredFalse(v ssa.Value) bool {
 func c04CopyIntoEmpty(c *Ctx) {
 	c.Rule("R7 copy.empty: in the body/schema code (hcl, hclsyntax, json, ext/dynblock, hcldec) no copy(dst, src) has a destination made with length 0 (it would copy nothing: e.g. the caller's attribute schemas silently dropped from an extended schema)")
 	n := 0
-	for _, fn := range c.P.pkgFuncs("hcl", "hclsyntax", "json", "ext/dynblock", "hcldec") {
+	for _, fn := range c.P.pkgFuncs(c.Scope("hcl", "hclsyntax", "json", "ext/dynblock", "hcldec")...) {
 		for _, b := range fn.Blocks {
 			for _, ins := range b.Instrs {
 				call, ok := ins.(*ssa.Call)
@@ -520,7 +520,7 @@ func c04CopyIntoEmpty(c *Ctx) {
 func c04DeadFieldStore(c *Ctx) {
 	c.Rule("R8 rangecopy.store: no store to a field of a local struct copy (range variable or `x := elem`) whose value is never read again: such an assignment does not reach the slice element it appears to update")
 	n, bad := 0, 0
-	for _, fn := range c.P.pkgFuncs("hcl", "hclsyntax", "json", "ext/dynblock", "hcldec") {
+	for _, fn := range c.P.pkgFuncs(c.Scope("hcl", "hclsyntax", "json", "ext/dynblock", "hcldec")...) {
 		for _, b := range fn.Blocks {
 			for _, ins := range b.Instrs {
 				al, ok := ins.(*ssa.Alloc)
